@@ -24,7 +24,7 @@ EXHAUSTIVE_SUBDOMAINS = ["every NL band 1..59 x hemisphere x newer parity (direc
 ASSUMPTIONS = ["positions whose recovered latitude is within 1e-9 deg of an NL transition are counted as ambiguous, not judged",
                "equal timestamps accept either frame's position"]
 REQUIRED = ["none_result", "value_result", "same_parity", "south_wrap", "lon_wrap", "newer_even", "newer_odd",
-            "swapped_args", "datetime_ts", "aware_datetime_ts", "position_called_with_reference"] + ["band%d_%s" % (nl, h) for nl in range(1, 60) for h in "NS"]
+            "swapped_args", "datetime_ts", "aware_datetime_ts", "dst_change_ts", "position_called_with_reference"] + ["band%d_%s" % (nl, h) for nl in range(1, 60) for h in "NS"]
 
 
 def in_window(*rl):
@@ -58,6 +58,14 @@ def m_global(ctx, case):
         else:
             T0, T1 = np.float64(te), np.float64(to)
         ctx.hit("numpy_ts")
+    elif case.get("dt") == "dst":
+        # naive stamps straddling the end of the skipped hour / the repeated hour of a daylight-saving change, while the
+        # PROCESS runs in a zone that has one (WORKER_ENV sets TZ): naive datetimes are ordered by their wall-clock value
+        lo_ = datetime.datetime(2024, 3, 31, 2, 59, 59, 500000) if case["addr"] % 2 else datetime.datetime(2024, 10, 27, 2, 59, 59, 500000)
+        gap_ = abs(te - to) if te != to else 0
+        hi_ = lo_ + datetime.timedelta(seconds=min(gap_, 7200))
+        T0, T1 = (hi_, lo_) if te > to else (lo_, hi_) if to > te else (lo_, lo_)
+        ctx.hit("dst_change_ts")
     elif case.get("dt") == "aware":
         # timezone-aware stamps with DIFFERENT offsets (two feeders): the absolute instant decides which frame is newer
         z0 = datetime.timezone(datetime.timedelta(hours=(case["addr"] % 25) - 12))
@@ -157,6 +165,12 @@ def m_same_parity(ctx, case):
     ctx.nontrivial(("sp", m0, m1))
 
 
+def WORKER_ENV():
+    # the workers run in a time zone WITH daylight saving (POSIX rule, no zone database needed): naive datetime stamps must
+    # keep their wall-clock order whatever zone the process lives in
+    return {"TZ": "CET-1CEST,M3.5.0,M10.5.0/3"}
+
+
 MONITORS = {"global": m_global, "same_parity": m_same_parity}
 
 TCS = list(range(9, 19)) + [20, 21, 22]
@@ -181,7 +195,7 @@ def mkcase(rng, lat, lon, dist_nm=None, order=None):
             "ca": [rng.randrange(8), rng.randrange(8)], "addr": rng.fill(24), "te": te, "to": to,
             "ref": rng.choice((None, None, [lat + rng.uniform(-1, 1), lon + rng.uniform(-1, 1)],
                                [rng.uniform(-90, 90), rng.uniform(-180, 180)], [rng.randint(-90, 90), rng.randint(-180, 179)])),
-            "dt": rng.choice((False,) * 15 + (True,) * 3 + ("np", "aware")), "api": rng.choice(("position", "airborne_position")),
+            "dt": rng.choice((False,) * 14 + (True,) * 3 + ("np", "aware", "dst")), "api": rng.choice(("position", "airborne_position")),
             "lower": rng.choice((0, 0, 0, 0, 0, 0, 0, 1, 2, 3))}
 
 
